@@ -150,6 +150,9 @@ func (h appHarness) Gen(r *verifsim.SplitMix, tier string, idx int) any {
 		}
 		sp.RLat = distinct(2 + r.Intn(2))
 		sp.SLat = distinct(1 + r.Intn(2))
+		if os.Getenv("VERIF_APP_TIES") != "" { // development: two addresses of the receiver equally far away
+			sp.RLat[1] = sp.RLat[0]
+		}
 		// some of the addresses a host offers are not reachable from the other side (a LAN
 		// address offered to a peer elsewhere); at least one is
 		sp.RDead = make([]bool, len(sp.RLat))
